@@ -54,6 +54,21 @@ def run(ctx):
             ctx.fail('V2.single-utf8-test', 'value', loc(B.root), 'each value must be tested for UTF-8 exactly once (found %d tests)' % len(tests)); continue
         test, is_text = tests[0]
         v = test[1][2][0]          # the tested bytes: the generic value element
+        # every value of the set reaches the classification: between the attribute's decoded value set and the UTF-8 test there are
+        # only total, element-wise conversions - no adaptor that can drop, skip or cut elements
+        LOSSY = ('filter', 'filter_map', 'skip', 'take', 'step_by', 'take_while', 'skip_while', 'map_while', 'dedup', 'truncate', 'split_off', 'drain', 'retain', 'pop', 'remove', 'swap_remove', 'flatten', 'flat_map')
+        lvl, lossy = (v[1] if v[0] == 'elem' else v), None
+        depth_l = 0
+        while lvl[0] == 'many' and depth_l < 8:
+            depth_l += 1
+            if lvl[3] == lvl[2] or lvl[3] == ('skip',) or not absx.leaves(lvl[3], lambda x, e=lvl[2]: x == e):
+                lossy = 'an adaptor over the value set keeps only some of its elements (filter / filter_map)'
+            lvl = lvl[1]
+        bad_calls = [c for c in calls_in(lvl) if c in LOSSY]
+        if bad_calls:
+            lossy = 'the value set goes through %s before it is classified' % bad_calls[0]
+        ctx.add('V2.every-value-is-classified', 'value set', loc(B.root), v[0] == 'elem' and lossy is None,
+                'a value of the attribute can be dropped before it is classified as text or binary: %s' % (lossy or 'the tested bytes are not an element of the value set'))
         carried = [e for e in o.st.ev if e[0] == 'loop-carried' and e[3]['k'] == 'Closure']
         for e in carried:
             ctx.add('V2.flag-starts-false', 'per attribute', loc(e[3]), e[4] == absx.FALSE,
